@@ -18,7 +18,9 @@ import (
 	"runtime"
 	"runtime/debug"
 	"sort"
+	"strconv"
 	"sync"
+	"time"
 
 	gio "github.com/whatap/golib/io"
 
@@ -431,6 +433,13 @@ func sweepBlockRun(s space, lo, hi uint64) (bad []uint64) {
 	return
 }
 
+func gcd(a, b uint64) uint64 {
+	for b != 0 {
+		a, b = b, a%b
+	}
+	return a
+}
+
 func runSweep(c *core.Ctx, t *core.Trace) {
 	// the sweep allocates a few small slices per pattern over a small live heap: at the default pacing the collector
 	// runs every few milliseconds, and on a loaded machine each of its handshakes waits for descheduled threads
@@ -440,11 +449,31 @@ func runSweep(c *core.Ctx, t *core.Trace) {
 	var fails []mismatch
 	var totalM float64
 	report := []map[string]interface{}{}
+	// The sweep is time-boxed: on a machine shared with other work the 2^32 spaces (about 140 CPU minutes) do not fit
+	// the tier's budget.  Every space gets the part of the budget that its size is of the whole (what an earlier space
+	// did not use is left to the later ones); the blocks of a space are visited in a strided order, so what is covered
+	// when the time is up is spread over the whole space, and the evidence says how much it was.  Load can only lose
+	// coverage here, never produce a disagreement.
+	budget := time.Duration(c.Pick(60, 840)) * time.Second
+	if v, err := strconv.Atoi(c.Args["sweep_s"]); err == nil && v > 0 {
+		budget = time.Duration(v) * time.Second
+	}
+	var allN, cumN float64
 	for _, s := range spaces {
+		allN += float64(s.n)
+	}
+	start := time.Now()
+	for _, s := range spaces {
+		cumN += float64(s.n)
+		deadline := start.Add(time.Duration(float64(budget) * cumN / allN))
 		var mu sync.Mutex
 		var bad []uint64
 		nblk := (s.n + sweepBlock - 1) / sweepBlock
-		var next uint64
+		stride := nblk*5/8 | 1 // a step coprime with the number of blocks: b -> b*stride mod nblk is a permutation
+		for gcd(stride, nblk) != 1 {
+			stride += 2
+		}
+		var next, done uint64
 		var wg sync.WaitGroup
 		for w := 0; w < workers; w++ {
 			wg.Add(1)
@@ -452,23 +481,29 @@ func runSweep(c *core.Ctx, t *core.Trace) {
 				defer wg.Done()
 				for {
 					mu.Lock()
-					b := next
+					k := next
 					next++
 					mu.Unlock()
-					if b >= nblk {
+					if k >= nblk+2 || (k >= 2 && time.Now().After(deadline)) {
 						return
+					}
+					var b uint64 // the first and the last block always (k = 0, 1), then all blocks in strided order
+					if k == 1 {
+						b = nblk - 1
+					} else if k >= 2 {
+						b = ((k - 2) * stride) % nblk
 					}
 					lo, hi := b*sweepBlock, (b+1)*sweepBlock
 					if hi > s.n {
 						hi = s.n
 					}
-					if r := sweepBlockRun(s, lo, hi); len(r) > 0 {
-						mu.Lock()
-						if len(bad) < 1<<16 {
-							bad = append(bad, r...)
-						}
-						mu.Unlock()
+					r := sweepBlockRun(s, lo, hi)
+					mu.Lock()
+					done += hi - lo
+					if len(r) > 0 && len(bad) < 1<<16 {
+						bad = append(bad, r...)
 					}
+					mu.Unlock()
 				}
 			}()
 		}
@@ -482,8 +517,12 @@ func runSweep(c *core.Ctx, t *core.Trace) {
 			}
 			fails = append(fails, mismatch{s.op, bad[i], s.pat(bad[i])})
 		}
-		totalM += float64(s.n) / 1e6
-		report = append(report, map[string]interface{}{"op": s.op, "space": s.name, "patterns_millions": math.Round(float64(s.n)/1e4) / 100, "disagreements": len(bad)})
+		if done > s.n { // (block 0 and block nblk-1 coincide in a one-block space; the permutation may revisit them)
+			done = s.n
+		}
+		totalM += float64(done) / 1e6
+		report = append(report, map[string]interface{}{"op": s.op, "space": s.name, "patterns_millions": math.Round(float64(done)/1e4) / 100,
+			"of_millions": math.Round(float64(s.n)/1e4) / 100, "complete": done >= s.n, "disagreements": len(bad)})
 		c.Count(fmt.Sprintf("sweep:%s:%s", s.op, s.name), true)
 	}
 	c.SetExtra("sweep", report)
